@@ -277,6 +277,9 @@ func (b *Base) Features() []string {
 	if b.PreemptsUsed > 0 {
 		f = append(f, "preempt")
 	}
+	if b.FaultsUsed+b.CrashesUsed >= 2 {
+		f = append(f, "deviations>=2")
+	}
 	f = append(f, b.StaticFeatures...)
 	sort.Strings(f)
 	return f
